@@ -41,8 +41,9 @@ def _mk(s, sc, ec):
 
 
 # ---------------------------------------------------------------------------- full AUC
-_full_cases = st.fixed_dictionaries(dict(
-    s=gen.score_sets(min_pos=1, min_neg=1, max_size=10,
+def _full_cases(max_size=10):
+    return st.fixed_dictionaries(dict(
+    s=gen.score_sets(min_pos=1, min_neg=1, max_size=max_size,
                      modes=("grid", "grid", "grid", "int", "dyadic", "float", "ulp", "distinct"))))
 
 
@@ -148,9 +149,9 @@ PROP = Prop(
           "[lo,up],[lo,mid],[mid,up],[0,1] (1e-9), additivity, <= width, y-complement, mirrored "
           "x-complement, swapped axes. Non-trivial = classes overlap (and 0<lo<up<1 for partial)."),
     clauses=[
-        Clause("full_auc", check_full, strategy=_full_cases, quick=700, thorough=3000,
+        Clause("full_auc", check_full, strategy=lambda tier: _full_cases(10 if tier == "quick" else 40), quick=700, thorough=12000,
                quick_shards=3, min_nontrivial=100, doc="auc() = Mann-Whitney incl. ties"),
-        Clause("partial_auc", check_partial, strategy=_partial_cases(), quick=350, thorough=1500,
+        Clause("partial_auc", check_partial, strategy=_partial_cases(), quick=350, thorough=6000,
                quick_shards=3, min_nontrivial=50, doc="partial AUC = exact step area and corollaries"),
     ],
 )
